@@ -863,6 +863,30 @@ def fam_cpu_mix(seed):
     return g.finish(outs, "cpu-mix", "cpu-mix", tol=None)
 
 
+def fam_tiny(seed):
+    """single-operator networks: nothing is weight-buffered, cascaded or (on dedicated-SRAM systems) placed in SRAM at all"""
+    r = rng_for("tiny", seed)
+    g = G(r, str(r.choice(["int8", "int8", "uint8"])))
+    h, w, c = int(r.choice([1, 2, 4, 8])), int(r.choice([1, 2, 4, 8])), int(r.choice([1, 4, 8, 16]))
+    x = g.input([1, h, w, c])
+    t = int(r.integers(0, 7))
+    if t == 0:
+        y = g.eltwise(str(r.choice(["add", "mul", "sub"])), x, g.input([1, h, w, c]))
+    elif t == 1:
+        y = g.pool(x, "maxpool", min(2, h, w), 1, PAD_SAME)
+    elif t == 2:
+        y = g.fc(g.reshape(x, [1, h * w * c]), int(r.choice([4, 10])))
+    elif t == 3:
+        y = g.conv(x, int(r.choice([4, 8])), 1, 1, PAD_SAME, int(r.choice([0, 1])))
+    elif t == 4:
+        y = g.unary(str(r.choice(["relu", "relu6", "abs"])), x)
+    elif t == 5:
+        y = g.eltwise("add", x, g.const_act([1, 1, 1, c]))
+    else:
+        y = g.dwconv(x, min(2, h, w), 1, PAD_SAME, 0)
+    return g.finish([y], "tiny", "exact")
+
+
 FAMILIES = {
     "exact-chain": fam_exact_chain,
     "exact-dag": fam_exact_dag,
@@ -873,6 +897,7 @@ FAMILIES = {
     "alias-stress": fam_alias_stress,
     "cpu-mix": fam_cpu_mix,
     "shared-weights": fam_shared_weights,
+    "tiny": fam_tiny,
 }
 
 
